@@ -180,6 +180,36 @@ theorem convert_step_partial (mv : Moves) (hmv : mv.Lawful) (g : IsingSampler) (
     sim_step mv hmv g (convertResult g) (sim_convert g hh hn) ⟨hh, hr, hb, hwf.edges2⟩ beta rng
   exact ⟨h4, h5, h6, h3⟩
 
+/-- Heat-bath variant: the Ising sampler sweeps with heat-bath (`set_enable_heatbath(true)`, before
+or after the conversion) and the option is switched on by hand on the converted sampler
+(`set_do_heatbath(true)` — `into_qmc` itself never carries it, see `convert_carries`).  No field,
+no RVB: identical state, cutoff (so the growth rule must run in the heat-bath branch of
+`diagonal_update` too), operators and rng after any number of steps. -/
+theorem convert_trajectory_heatbath_partial (mv : Moves) (hmv : mv.Lawful) (hheat : mv.HeatPad)
+    (g : IsingSampler) (hwf : g.WF) (hn : 0 < g.model.nvars) (hh : g.model.hasField = false)
+    (hr : g.runRvb = false) (hb : g.heatbath = true) (q : GenericSampler) (hq : intoQmc g = .ok q)
+    (beta : Rat) (k : Nat) (rng : List Nat) :
+    let q' := q.setDoHeatbath true
+    (genericSteps mv beta k (q', rng)).1.state = (isingSteps mv beta k (g, rng)).1.state ∧
+    (genericSteps mv beta k (q', rng)).1.cutoff = (isingSteps mv beta k (g, rng)).1.cutoff ∧
+    growSlots (genericSteps mv beta k (q', rng)).1.slots (genericSteps mv beta k (q', rng)).1.cutoff
+      = growSlots (isingSteps mv beta k (g, rng)).1.slots (isingSteps mv beta k (g, rng)).1.cutoff ∧
+    (genericSteps mv beta k (q', rng)).2 = (isingSteps mv beta k (g, rng)).2 := by
+  rw [intoQmc_eq g hwf] at hq; injection hq with hq; subst hq
+  intro q'
+  obtain ⟨hsim, hrng⟩ := simHB_steps mv hmv hheat beta k g q' rng (simHB_convert g hh hn)
+    ⟨hh, hr, hb, hwf.edges2⟩
+  exact ⟨hsim.1, hsim.2.1, hsim.2.2.1, hrng⟩
+
+/-- `Γ = 0` is inside the domain: the constant `[0,0,0,0]` single-site terms still open the cluster
+gate of the converted sampler (the Ising sampler flips the whole string with probability ½ there),
+so the trajectory theorems apply. -/
+theorem convert_cluster_gate_gamma_zero (g : IsingSampler) (he : ∀ e ∈ g.model.edges, e.1.length = 2)
+    (h0 : g.model.transverse = 0) (hh : g.model.longitudinal = 0) (hn : 0 < g.model.nvars)
+    (q : GenericSampler) (hq : intoQmc g = .ok q) : q.shouldDoClusterUpdate = true := by
+  have hwf : g.WF := ⟨he, by rw [h0]⟩
+  rw [convert_cluster_gate g hwf q hq hn, hasField_zero _ hh]; rfl
+
 /-- What survives F4: for **every** field `h`, sequences of diagonal sweeps
 (`single_diagonal_step` on the Ising sampler, `diagonal_update` on its conversion) from the same
 rng state stay identical — state, cutoff, operators, rng. -/
@@ -212,6 +242,9 @@ def witnessMoves : Moves :=
 
 theorem witnessMoves_lawful : witnessMoves.Lawful :=
   ⟨fun _ c _ w => by simp [witnessMoves, growSlots_idem], fun _ => rfl, fun _ => rfl⟩
+
+theorem witnessMoves_heatPad : witnessMoves.HeatPad :=
+  fun _ c _ w => by simp [witnessMoves, growSlots_idem]
 
 /-- two spins, `J = 1`, `Γ = 1`, `h = 1/2` (the input recorded for F4 in the harness) -/
 def witnessSampler : IsingSampler :=
